@@ -480,8 +480,8 @@ func TestC03CounterConcurrent(t *testing.T) {
 	if ev.Replaying() {
 		t.Skip() // a schedule cannot be replayed; the failure text names what was seen
 	}
-	workers := 4
-	per := ev.Pick(2500000, 12000000) / ev.GetEnv().Shards
+	workers := 12
+	per := ev.Pick(3000000, 12000000) / ev.GetEnv().Shards
 	var mu sync.Mutex
 	var failure string
 	var wg sync.WaitGroup
